@@ -23,6 +23,7 @@ import (
 	"fmt"
 	"io"
 	"net/http"
+	"sort"
 	"strings"
 
 	"github.com/sassoftware/relic/v8/lib/x509tools"
@@ -110,7 +111,15 @@ func updateManifest(jar *zipslicer.Directory, hash crypto.Hash) (*JarDigest, err
 	}
 	hashName += "-Digest"
 	changed := false
-	for name, calculated := range jd.Digests {
+	// visit the files in a fixed order so that sections added to the manifest
+	// always come out in the same order for the same input
+	names := make([]string, 0, len(jd.Digests))
+	for name := range jd.Digests {
+		names = append(names, name)
+	}
+	sort.Strings(names)
+	for _, name := range names {
+		calculated := jd.Digests[name]
 		// if the manifest has a matching digest, check it. otherwise add to the manifest.
 		attrs := files.Files[name]
 		if attrs == nil {
